@@ -60,20 +60,52 @@ func VerifC08_SmudgeNonPointer() {
 	verifOverride("github.com/git-lfs/git-lfs/v3/commands.Print", verifQuiet8)
 	verifOverride("github.com/git-lfs/git-lfs/v3/commands.Error", verifQuiet8)
 	gf := lfs.NewGitFilter(&config.Configuration{})
-	t1 := verifNondetString("content.head")
-	verifAssume(len(t1) >= 1 && len(t1) <= 1100)
-	verifAssumeAlphabet(t1, "AZaz")
-	verifAssume(verifNot(verifOr(strings.Contains(t1, "git-lfs"), verifOr(strings.Contains(t1, "git-media"), strings.Contains(t1, "hawser")))))
-	t2 := ""
-	if verifChoose("has.tail", 2) == 1 {
-		t2 = verifNondetString("content.tail")
-		verifAssume(len(t2) >= 1 && len(t2) <= 4000000)
-		verifAssume(len(t1) >= 1024)
-	}
-	in := t1 + t2
-	chunks := []string{in}
-	if verifChoose("two.chunks", 2) == 1 {
-		chunks = []string{t1, t2}
+	var in string
+	var chunks []string
+	if verifChoose("input.kind", 2) == 0 {
+		t1 := verifNondetString("content.head")
+		verifAssume(len(t1) >= 1 && len(t1) <= 1100)
+		verifAssumeAlphabet(t1, "AZaz")
+		verifAssume(verifNot(verifOr(strings.Contains(t1, "git-lfs"), verifOr(strings.Contains(t1, "git-media"), strings.Contains(t1, "hawser")))))
+		t2 := ""
+		if verifChoose("has.tail", 2) == 1 {
+			t2 = verifNondetString("content.tail")
+			verifAssume(len(t2) >= 1 && len(t2) <= 4000000)
+			verifAssume(len(t1) >= 1024)
+		}
+		in = t1 + t2
+		chunks = []string{in}
+		if verifChoose("two.chunks", 2) == 1 {
+			chunks = []string{t1, t2}
+		}
+	} else {
+		// text that starts like a pointer but is none: one damaged field
+		verifCover("look-alike")
+		version := "https://git-lfs.github.com/spec/v1"
+		oidLine := "oid sha256:" + strings.Repeat("0123456789abcdef", 4)
+		sizeLine := "size 12"
+		switch verifChoose("damage", 6) {
+		case 0: // an id that is not lower-case hex
+			id := verifNondetString("bad.oid")
+			verifAssume(len(id) == 64)
+			verifAssumeAlphabet(id, "AF")
+			oidLine = "oid sha256:" + id
+		case 1: // another hash type
+			oidLine = "oid sha1:" + strings.Repeat("0123456789abcdef0123", 2)
+		case 2: // a negative size
+			sizeLine = "size -1"
+		case 3: // a size that is no number
+			word := verifNondetString("bad.size")
+			verifAssume(len(word) >= 1 && len(word) <= 6)
+			verifAssumeAlphabet(word, "az")
+			sizeLine = "size " + word
+		case 4: // an unknown version of the specification
+			version = "https://git-lfs.github.com/spec/v2"
+		case 5: // the id is missing
+			oidLine = "oid"
+		}
+		in = "version " + version + "\n" + oidLine + "\n" + sizeLine + "\n"
+		chunks = []string{in}
 	}
 	var out bytes.Buffer
 	n, err := smudge(gf, &out, &verifPipe{chunks: chunks, eofWithLast: verifNondetBool("eof.with.last")}, "file.bin", false, nil)
